@@ -11,6 +11,7 @@ import (
 	"strings"
 	"sync"
 	"sync/atomic"
+	"syscall"
 	"testing"
 	"testing/cryptotest"
 	"testing/synctest"
@@ -233,6 +234,34 @@ func (w *World) Push(src, dst Addr, b []byte) bool {
 	}
 }
 
+// PushReadErr makes dst's next ReadFrom (after what is already queued) report err once: what a connected UDP
+// socket does when an ICMP error for an earlier datagram comes back.
+func (w *World) PushReadErr(dst Addr, err error) bool {
+	w.Skew()
+	w.mu.Lock()
+	c := w.conns[dst]
+	w.mu.Unlock()
+	if c == nil {
+		return false
+	}
+	select {
+	case <-c.closed:
+		return false
+	default:
+	}
+	select {
+	case c.inbox <- inPkt{err: err}:
+		return true
+	default:
+		panic("world: inbox overflow")
+	}
+}
+
+// ConnRefused is the error of a UDP socket after an ICMP port-unreachable: *net.OpError wrapping ECONNREFUSED.
+func ConnRefused() error {
+	return &net.OpError{Op: "read", Net: "udp", Err: os.NewSyscallError("recvfrom", syscall.ECONNREFUSED)}
+}
+
 // Deliver takes d out of flight and delivers it unchanged.
 func (w *World) Deliver(d *Datagram) bool {
 	w.Take(d)
@@ -275,6 +304,7 @@ func (w *World) Sleep(d time.Duration) {
 type inPkt struct {
 	src Addr
 	b   []byte
+	err error // non-nil: ReadFrom reports this error instead of a datagram
 }
 
 // MemConn is the in-memory net.PacketConn handed to the library.
@@ -327,6 +357,9 @@ func (c *MemConn) ReadFrom(p []byte) (int, net.Addr, error) {
 		case pk := <-c.inbox:
 			if tm != nil {
 				tm.Stop()
+			}
+			if pk.err != nil {
+				return 0, nil, pk.err
 			}
 			n := copy(p, pk.b)
 			return n, pk.src, nil
